@@ -670,6 +670,28 @@ def run_C07(run):
         d2.append((f"~({expr})", ('~', expr, None, False)))
         d2.append((f"~(~({expr}))", ('~~', expr, None, False)))
     accs2 = common.pmap(_task_c07, [(c, 0, False) for c in common.chunks(d2, 800)])
+    # interval configurations: every ordered triple of ranges/characters over a short ordered alphabet, combined in both
+    # association shapes, under every set order reachable with one deviation (all permutations of each iterated set)
+    letters = 'abcdefg' if thorough else 'abcdef'
+    elems = [f"AnyBetween({x!r}, {y!r})" for i, x in enumerate(letters) for y in letters[i + 1:]]
+    elems += [f"AnyFrom({x!r})" for x in (letters[0], letters[2], letters[-1])]
+    ic = []
+    for a, b, c in itertools.product(elems, repeat=3):
+        if a == b or b == c:
+            continue
+        ic.append((f"(({a}) | ({b})) | ({c})", ('|', f"(({a}) | ({b}))", c, False)))
+        if a < b:
+            ic.append((f"(({a}) | ({b})) - ({c})", ('-', f"(({a}) | ({b}))", c, False)))
+        if b < c:
+            ic.append((f"({a}) - (({b}) | ({c}))", ('-', a, f"(({b}) | ({c}))", False)))
+            ic.append((f"({a}) | (({b}) | ({c}))", ('|', a, f"(({b}) | ({c}))", False)))
+    # the same for four ranges, on the configurations where one range meets several others
+    wide = [f"AnyBetween({letters[0]!r}, {y!r})" for y in letters[1:4]]
+    for a in wide:
+        for b, c, d in itertools.permutations([e for e in elems if 'Between' in e and e not in wide][:8], 3):
+            ic.append((f"((({b}) | ({c})) | ({d})) | ({a})", ('|', f"((({b}) | ({c})) | ({d}))", a, False)))
+    accs += common.pmap(_task_c07, [(c, 1, True) for c in common.chunks(ic, 200)])
+    run.count('interval_configuration_cases', len(ic))
     # second use of the same object
     core_cls_all = [c for c in core if c.startswith('Any')] + ["AnyFrom('a', 'z', '5')", "AnyFrom('a', 'b', 'x')"]
     steps = [('-', "'z'"), ('-', "'a'"), ('|', "'q'"), ('-', "AnyFrom('a', 'b')"), ('|', "AnyBetween('c', 'k')"), ('-', "AnyBetween('b', 'y')"), ('~', ''),
